@@ -302,10 +302,15 @@ impl Pattern {
      * to verify that there is a match.
      */
     fn alternate_match(pattern: &str, pkg: &str) -> bool {
-        for (i, _) in
-            pattern.match_indices('{').collect::<Vec<_>>().iter().rev()
-        {
-            let (first, rest) = pattern.split_at(*i);
+        /*
+         * Only the right-most opening brace is expanded here: its group
+         * cannot contain another group, and any braces to its left are
+         * expanded by the recursive Pattern::new() / matches() below.  Going
+         * on to braces further left would pair them with the wrong closing
+         * brace.
+         */
+        if let Some(i) = pattern.rfind('{') {
+            let (first, rest) = pattern.split_at(i);
             /* This shouldn't fail as new() already verified, but... */
             let Some(n) = rest.find('}') else {
                 return false;
